@@ -69,3 +69,19 @@ func (b *gbuf) compact() {
 	}
 	b.info = b.info[:j]
 }
+
+// controls of R-STATE/array
+
+type abuf struct{ ctx [2][]rune }
+type abufBad struct{ ctx [2][]rune }
+
+func (b *abuf) clearSide(side uint) { b.ctx[side] = b.ctx[side][:0] }
+func (b *abuf) Clear() {
+	b.clearSide(0)
+	b.clearSide(1)
+}
+
+func (b *abufBad) clearSide(side uint) { b.ctx[side] = b.ctx[side][:0] }
+
+// the text after the run survives
+func (b *abufBad) Clear() { b.clearSide(0) }
